@@ -149,6 +149,11 @@ def c02(ck):
             for j in range(1, len(nm) + 1):
                 pre = nm[:j].encode("utf-8")
                 ses.append("%d 16 1 d%d b:%s;b:09;b:0d" % (len(pre) + rng.choice([0, 1, 2, 3, 8]), k, gen.hx(pre)))
+                if len(nm.encode("utf-8")) != len(nm) and j <= 3:
+                    # names with multi-byte characters: EVERY buffer size between the typed prefix and the whole name, so that the free space ends
+                    # on every byte of every character of the completion (a cut inside a 3- or 4-byte character included)
+                    for cap in range(len(pre), len(nm.encode("utf-8")) + 2):
+                        ses.append("%d 16 1 d%d b:%s;b:09;b:0d" % (cap, k, gen.hx(pre)))
 
     def oracle_all(case, io):
         st = parse_steps(io)
@@ -1073,6 +1078,7 @@ def ensure_decls(ck):
     sets = declgen.generate(random.Random(ck.seed * 7919 + 17), n)
     declgen.write_all(sets, os.path.join(core.HARNESS_DIR, "src", "gen_decls.rs"), os.path.join(core.BUILD, "decls.txt"))
     os.environ["VERIF_DECLS"] = os.path.join(core.BUILD, "decls.txt")
+    ck._bin.clear()   # a harness built earlier in this run may predate the declarations just written
     ck.cov["declaration_sets"] = len(sets)
     return declgen, sets
 
